@@ -34,6 +34,11 @@ type eqEmbedded struct {
 	Y int
 }
 type EqInner struct{ X int }
+type eqNested struct {
+	P  *int
+	In eqStruct
+	L  []string
+}
 type eqPrivate struct {
 	A int
 	b int
@@ -75,6 +80,43 @@ func (n eqNode) build() any {
 		return a
 	case "strs":
 		return append([]string{}, n.Ss...)
+	case "fslice":
+		f := make([]float64, len(n.Vs))
+		for i, v := range n.Vs {
+			f[i] = float64(v) + 0.5
+		}
+		return f
+	case "sarr":
+		var a [2]string
+		copy(a[:], n.Ss)
+		return a
+	case "imap":
+		m := map[int]string{}
+		for i, k := range n.Vs {
+			m[k] = n.Ss[i]
+		}
+		return m
+	case "ptr3":
+		v := n.Vs[0]
+		p1 := &v
+		p2 := &p1
+		return &p2
+	case "nstruct":
+		v := n.Vs[0]
+		return eqNested{&v, eqStruct{n.Vs[1], n.Ss[0]}, []string{n.Ss[1]}}
+	case "typed":
+		switch n.Kind {
+		case "int64":
+			return int64(n.Vs[0])
+		case "uint16":
+			return uint16(n.Vs[0])
+		case "float32":
+			return float32(n.Vs[0]) + 0.25
+		case "complex128":
+			return complex(float64(n.Vs[0]), 1)
+		case "rune":
+			return rune(n.Vs[0])
+		}
 	case "map":
 		m := map[string]int{}
 		for i, k := range n.Ss {
@@ -115,8 +157,14 @@ func (n eqNode) String() string {
 		return fmt.Sprintf("%v", n.V)
 	case "ptr":
 		return "&" + n.Kids[0].String()
-	case "slice", "array", "structE", "structU":
+	case "slice", "array", "structE", "structU", "fslice", "ptr3":
 		return fmt.Sprintf("%s%v", n.T, n.Vs)
+	case "sarr":
+		return fmt.Sprintf("sarr%q", n.Ss)
+	case "imap", "nstruct":
+		return fmt.Sprintf("%s%v%q", n.T, n.Vs, n.Ss)
+	case "typed":
+		return fmt.Sprintf("%s(%d)", n.Kind, n.Vs[0])
 	case "strs":
 		return fmt.Sprintf("%q", n.Ss)
 	case "map":
@@ -204,6 +252,38 @@ func (n eqNode) mutants() []eqNode {
 				m2.Vs = m2.Vs[:len(m2.Vs)-1]
 				add(m2, "slice one element shorter")
 			}
+		}
+	case "fslice", "ptr3", "typed":
+		for i := range n.Vs {
+			m := cloneNode(n)
+			m.Vs[i] += 3
+			add(m, fmt.Sprintf("%s value %d changed", n.T, i))
+		}
+	case "sarr":
+		for i := range n.Ss {
+			m := cloneNode(n)
+			m.Ss[i] += "'"
+			add(m, fmt.Sprintf("string array element %d changed", i))
+		}
+	case "imap":
+		for i := range n.Ss {
+			m := cloneNode(n)
+			m.Ss[i] += "'"
+			add(m, fmt.Sprintf("int-keyed map value %d changed", i))
+		}
+		mk := cloneNode(n)
+		mk.Vs[0] += 100
+		add(mk, "int-keyed map key changed")
+	case "nstruct":
+		for i := range n.Vs {
+			m := cloneNode(n)
+			m.Vs[i] += 5
+			add(m, fmt.Sprintf("nested struct int field %d changed", i))
+		}
+		for i := range n.Ss {
+			m := cloneNode(n)
+			m.Ss[i] += "'"
+			add(m, fmt.Sprintf("nested struct string field %d changed", i))
 		}
 	case "strs":
 		for i := range n.Ss {
@@ -317,6 +397,9 @@ func eqLeaves() []eqNode {
 		{T: "slice", Vs: []int{1, 2, 3}}, {T: "slice", Vs: []int{1, 2}, Cap: 8}, {T: "array", Vs: []int{1, 2, 3}}, {T: "strs", Ss: []string{"a", "b"}},
 		{T: "map", Ss: []string{"x", "y"}, Vs: []int{1, 2}}, {T: "struct", Vs: []int{1}, Ss: []string{"b"}}, {T: "pstruct", Vs: []int{1}, Ss: []string{"b"}},
 		{T: "structE", Vs: []int{1, 2}}, {T: "structU", Vs: []int{1, 2}},
+		{T: "fslice", Vs: []int{1, 2}}, {T: "sarr", Ss: []string{"p", "q"}}, {T: "imap", Vs: []int{1, 2}, Ss: []string{"a", "b"}}, {T: "ptr3", Vs: []int{9}},
+		{T: "nstruct", Vs: []int{4, 5}, Ss: []string{"s", "l"}}, {T: "typed", Kind: "int64", Vs: []int{6}}, {T: "typed", Kind: "uint16", Vs: []int{6}},
+		{T: "typed", Kind: "float32", Vs: []int{6}}, {T: "typed", Kind: "complex128", Vs: []int{6}}, {T: "typed", Kind: "rune", Vs: []int{66}}, {T: "prim", V: "é日本"},
 	}
 }
 
